@@ -738,6 +738,7 @@ func (t *Tree) Compile(file string, args []string, out io.Writer) (err error) {
 				consumes = true
 				properties := make([]struct {
 					intersects bool
+					nullable   bool
 					s          *set.Set
 				}, n.Len())
 
@@ -745,7 +746,12 @@ func (t *Tree) Compile(file string, args []string, out io.Writer) (err error) {
 					properties[i].s = set.NewSet()
 				}
 				for i, element := range n.Iterator2() {
-					consumes, properties[i].s = optimizeAlternates(element)
+					var c bool
+					c, properties[i].s = optimizeAlternates(element)
+					// An alternative that can succeed without consuming can succeed
+					// on any character, whatever its first-character set says.
+					properties[i].nullable = !c
+					consumes = consumes && c
 					s = s.Union(properties[i].s)
 				}
 
@@ -756,7 +762,7 @@ func (t *Tree) Compile(file string, args []string, out io.Writer) (err error) {
 				intersections := 2
 				for ai, a := range properties[:len(properties)-1] {
 					for _, b := range properties[ai+1:] {
-						if a.s.Intersects(b.s) {
+						if a.nullable || b.nullable || a.s.Intersects(b.s) {
 							intersections++
 							properties[ai].intersects = true
 							break
